@@ -2435,6 +2435,9 @@ func (m *Machine) processHandlers(e *Event) (Result, bool) {
 			default:
 			}
 			timeout = true
+			// a timeout cancels the whole transition, it's not a partial auto
+			// state rejection
+			tx.IsBroken.Store(true)
 
 			// wait for the handler to exit within HandlerDeadline
 			select {
